@@ -706,8 +706,11 @@ func (c *ctx) nested(h *handle, tag int, all bool) []*handle {
 	return out
 }
 
-func (c *ctx) rangeOver(h *handle) {
-	e := &LEv{C: "range", H: h.id, Mode: h.mode, G: c.g}
+func (c *ctx) rangeOver(h *handle) { c.rangeStop(h, 0) }
+
+// rangeStop ranges over the result; stop > 0: the callback returns false at its stop-th call (recorded in the tag field)
+func (c *ctx) rangeStop(h *handle, stop int) {
+	e := &LEv{C: "range", H: h.id, Mode: h.mode, G: c.g, Tag: stop}
 	guard(e, func() {
 		h.res.Range(func(tag int, fd *lazyproto.FieldData) bool {
 			p := 0
@@ -715,11 +718,51 @@ func (c *ctx) rangeOver(h *handle) {
 				p = 1
 			}
 			e.Rng = append(e.Rng, []int{tag, p})
-			return true
+			return stop == 0 || len(e.Rng) < stop
 		})
 	})
 	if e.St == "" {
 		e.St = "ok"
+	}
+	c.sink(e)
+}
+
+// nilProbe calls the methods of a nil *DecodeResult and a nil *FieldData: 0 = no error, 1 = not-defined, 2 = not-found, 3 = another
+// error, 4 = panic; for Range the number of callback calls
+func (c *ctx) nilProbe() {
+	var r *lazyproto.DecodeResult
+	var fd *lazyproto.FieldData
+	e := &LEv{C: "nilres", G: c.g, St: "ok"}
+	code := func(f func() error) int {
+		n := 4
+		func() {
+			defer func() { _ = recover() }()
+			err := f()
+			switch errClass(err) {
+			case "ok":
+				n = 0
+			case "notdefined":
+				n = 1
+			case "notfound":
+				n = 2
+			default:
+				n = 3
+			}
+		}()
+		return n
+	}
+	e.Val = []int{
+		code(func() error { return r.Close() }),
+		code(func() error { calls := 0; r.Range(func(int, *lazyproto.FieldData) bool { calls++; return true }); if calls > 0 { return fmt.Errorf("visited") }; return nil }),
+		code(func() error { _, err := r.FieldData(1); return err }),
+		code(func() error { _, err := r.FieldData(); return err }),
+		code(func() error { _, err := r.GetFieldData(1); return err }),
+		code(func() error { _, err := r.NestedResult(1); return err }),
+		code(func() error { _, err := r.NestedResults(1); return err }),
+		code(func() error { _, err := r.Int32Value(1); return err }),
+		code(func() error { _, err := r.StringValues(1); return err }),
+		code(func() error { _, err := fd.Int64Value(); return err }),
+		code(func() error { _, err := fd.BytesValues(); return err }),
 	}
 	c.sink(e)
 }
@@ -793,6 +836,15 @@ func (c *ctx) exercise(h *handle, depth int, full bool) {
 		}
 	}
 	c.rangeOver(h)
+	if c.r.Intn(3) == 0 {
+		c.rangeStop(h, 1+c.r.Intn(3))
+	}
+	if c.r.Intn(4) == 0 {
+		c.access(h, scalarAccs[c.r.Intn(len(scalarAccs))], []int{}) // FieldData() without a tag: an error
+	}
+	if c.r.Intn(8) == 0 {
+		c.nilProbe()
+	}
 	// nested lookups on declared nested tags and on a few others
 	for _, t := range tagPool[:6] {
 		_, isNested := h.def[t]
